@@ -283,10 +283,6 @@ def check_ast_fields(repo: Repo, rep: Report, sums: List[OpSummary], rule: str =
         for pr in probs:
             if only_kinds and pr.kind not in only_kinds:
                 continue
-            if pr.node_cls == "Call" and pr.fld == "keywords" and pr.kind == "node-for-sequence":
-                # refused by unparse (TypeError), not a wrong value: information only
-                rep.info(f"{q}: Call.keywords receives a node ({pr.got}) at line {pr.line}: unparse raises TypeError (a refusal, not a wrong value)")
-                continue
             rep.bad(rule, q, f"{pr.kind}:{pr.node_cls}.{pr.fld}", f"{s.name}: {pr.detail}", s.run.file, pr.line, what=f"{pr.node_cls}.{pr.fld} <- {pr.got}")
         if not probs:
             rep.ok(rule, q, f"{s.name}: {f.cls}@{f.line} fields well-typed", f"{s.run.file}:{f.line}")
@@ -300,8 +296,6 @@ def check_ast_fields(repo: Repo, rep: Report, sums: List[OpSummary], rule: str =
             continue
         if pr.line in seen_lines:
             continue  # already judged by the abstract layer with better information
-        if pr.node_cls == "Call" and pr.fld == "keywords":
-            continue
         rep.bad(rule, fn.qualname, f"{pr.kind}:{pr.node_cls}.{pr.fld}", pr.detail, fn.file, pr.line)
     rep.ok(rule, "fickling/*", f"{count} ast.* constructor calls in the package scanned syntactically, {n} abstract nodes from opcode handlers typed", "")
     if count < 50:
@@ -363,3 +357,10 @@ def run(rep: Report, tier: str):
 
     rep.rule("C05.memo-alias", "PUT-family/MEMOIZE store the node on top of the stack under the VM's key and GETs push that very node (sharing through the memo)", 9)
     check_memo(repo, rep, sums, RULE="C05.memo-alias")
+
+    # interpreted last: the rules above stand on their own if the decompiler cannot be interpreted over an input
+    from ..vmworlds import C05_KEYS, report as _vm_report
+
+    rep.rule("C05.value-worlds", "the decompiled program of every corpus pickle denotes the value CPython's unpickler builds", 1)
+    _vm_report(repo, rep, "C05.value-worlds", tier, C05_KEYS)
+
